@@ -1,13 +1,17 @@
 #!/bin/bash
 # Runs every quick check against every behaviour-preserving change in benign/ (scratch copies of /repo; /repo is never
 # touched). Every check must stay quiet: a line "ALARM" means a check raised an alarm on code where the properties hold.
-# Usage: [PAR=n] tools/benignmatrix.sh [ids...]      (benign/<id>/base.txt names an older base commit if the patch needs one)
+# Usage: [PAR=n] [ONLY="Cxx Cyy"] tools/benignmatrix.sh [ids...]      (benign/<id>/base.txt names an older base commit if the patch needs one)
 cd "$(dirname "$(readlink -f "$0")")/.."
 IDS="$@"; [ -z "$IDS" ] && IDS=$(ls benign | grep -v README | sort -V)
 one() {
   id=$1
   BASE=""; [ -f benign/$id/base.txt ] && BASE=$(cat benign/$id/base.txt)
   CHECKS=all; [ -f benign/$id/checks.txt ] && CHECKS=$(cat benign/$id/checks.txt)
+  # ONLY="C09 C10": run just these checks (minus any the change's checks.txt leaves out)
+  if [ -n "$ONLY" ]; then
+    if [ "$CHECKS" = all ]; then CHECKS="$ONLY"; else CHECKS=$(for c in $ONLY; do echo " $CHECKS " | grep -q " $c " && echo -n "$c "; done); fi
+  fi
   OUT=$(SEED_BASE=$BASE tools/seedcheck.sh benign/$id $CHECKS 2>&1)
   bad=$(echo "$OUT" | grep "^check " | grep -v "exit=0" | grep -v "exit=2" | cut -c1-200 | tr '\n' ';')
   inc=$(echo "$OUT" | grep "^check " | grep "exit=2" | cut -c1-40 | tr '\n' ';')
